@@ -7,7 +7,8 @@ end-to-end through the binary with a one-packet capture."""
 import json
 
 from .. import core, progs, e2e
-from ..past import render
+from ..past import (render, OBS_DECL, obs, lit, vint, vbool, vstr, vbyte, bin_, un, let, ident, call, arr, expr, I, if_, while_,
+                    brk, fn, fndef, asg)
 
 PROP = "C06"
 
@@ -16,21 +17,92 @@ def kind(tag):
     return tag.split(":")[0] if tag else ""
 
 
+def beyond_the_table():
+    """values of kinds the table does not list are truthy in every position: an error object, a builtin function, a
+    closure, a named function, a file handle - in !v, if, while, as either operand of && and ||"""
+    vals = {
+        "error-object": call("decode_utf8", arr(lit(vbyte(255)))),
+        "builtin-function": ident("len"),
+        "closure": fn([], [expr(I(0))]),
+        "named-function": ident("nf"),
+        "stdout-handle": ident("stdout"),
+    }
+    out = []
+    pre = [OBS_DECL, fndef("nf", [], [expr(I(0))]), fndef("P", ["t", "x"], [obs(ident("t")), expr(ident("x"))])]
+    for tag, v in vals.items():
+        progs_ = {
+            "not": [let("v", v), obs(un("!", ident("v")))],
+            "if": [let("v", v), obs(if_(ident("v"), [expr(I(1))], [expr(I(2))]))],
+            "if-direct": [obs(if_(v, [expr(I(1))], [expr(I(2))]))],
+            "while": [let("v", v), let("n", I(0)), while_(ident("v"), [expr(asg(ident("n"), bin_("+", ident("n"), I(1)))),
+                                                                          expr(if_(bin_(">=", ident("n"), I(2)), [brk()]))]), obs(ident("n"))],
+            "and-left": [let("v", v), obs(bin_("==", bin_("&&", ident("v"), call("P", I(7), I(5))), I(5)))],
+            "and-right": [let("v", v), obs(un("!", bin_("&&", I(1), ident("v"))))],
+            "or-left": [let("v", v), obs(un("!", bin_("||", ident("v"), call("P", I(7), I(5)))))],
+            "or-right": [let("v", v), obs(un("!", bin_("||", I(0), ident("v"))))],
+        }
+        for pos, body in progs_.items():
+            out.append(("beyond-table %s %s" % (tag, pos), pre + body))
+    return out
+
+
+def logic_in_filter_actions(rep):
+    """&& and || keep yielding their operand (not a boolean) inside filter statements: every expression of the pair
+    table is printed once at top level and once inside a filter action in the same run; the two lines must agree"""
+    from ..past import Renderer
+    import itertools
+    atoms = ["0", "7", "true", "false", "\"\"", "\"s\"", "null", "[]", "[0]", "0.0", "2.5", "byte(0)", "byte(9)", "char(0)", "'c'",
+             "map {}", "map {1: 1}"]
+    exprs = []
+    for a, b in itertools.product(atoms, repeat=2):
+        exprs.append("%s && %s" % (a, b))
+        exprs.append("%s || %s" % (a, b))
+    cap = e2e.pcapfmt.pcap_file([e2e.pcapfmt.simple_tcp_frame()])
+    jobs = []
+    chunks = [exprs[i:i + 40] for i in range(0, len(exprs), 40)]
+    for ch in chunks:
+        top = "".join('eprintln("T%d {}", %s);\n' % (i, e) for i, e in enumerate(ch))
+        act = "".join('eprintln("F%d {}", %s); ' % (i, e) for i, e in enumerate(ch))
+        pat = "".join('@ true { let w%d = %s; eprintln("L%d {}", w%d); }\n' % (i, e, i, i) for i, e in enumerate(ch[:8]))
+        jobs.append((["-s", "-c", top + "@ true { " + act + "}\n" + pat], cap))
+    n = 0
+    for ch, r in zip(chunks, e2e.run_many(jobs)):
+        lines = {}
+        for l in r["err"].decode("utf8", "replace").splitlines():
+            k, _, v = l.partition(" ")
+            lines[k] = v
+        for i, e in enumerate(ch):
+            n += 1
+            rep.cov["evaluations"] += 1
+            t, f = lines.get("T%d" % i), lines.get("F%d" % i)
+            l = lines.get("L%d" % i) if i < 8 else t
+            if r["how"] != "exit" or t is None or f != t or l != t:
+                rep.disagree("logic-in-filter-action %s" % ("&&" if "&&" in e else "||"),
+                             {"expr": e, "top_level": t, "in_action": f, "via_let_in_action": l, "how": r["how"],
+                              "stderr": r["err"].decode("utf8", "replace")[-300:]})
+    return n
+
+
 def run(rep, tier, seed):
     core.build_harness()
     cases, gres = progs.generate("GenTruth")
     rep.add_tlc(gres)
     items = [{"id": c["id"], "prog": c["prog"], "pos": c["pos"], "ta": c["ta"], "tb": c["tb"]} for c in cases]
+    for k, (tag, prog) in enumerate(beyond_the_table()):
+        items.append({"id": 900000 + k, "prog": prog, "pos": tag.split(" ")[2], "ta": tag.split(" ")[1], "tb": "beyond-table"})
     bad, verdicts = progs.run_and_validate(rep, items, chk=("final",))
     for it, out, v in bad:
         sig = "truth %s %s %s %s" % (it["pos"], it["ta"], it["tb"], progs.outcome_delta(v["exp"], out))
         rep.disagree(sig, {"src": it["src"], "expected": v["exp"], "got": it["raw"]})
     # filter-pattern position, end to end
     nf = e2e.filter_truthiness(rep, [c for c in cases if c["pos"] == "if"])
+    nf += logic_in_filter_actions(rep)
     rep.cov["distinct_nontrivial"] = len({(it["pos"], it["ta"], it["tb"]) for it in items}) + nf
     rep.cov["rule"] = ("TLC-enumerated table (spec/GenTruth.tla): 31 representative values x {!v, if v, while v} and "
                        "all ordered pairs for && and || with a probe on the right operand, plus each value as a "
-                       "filter pattern (end to end); distinct = distinct (position, value tags)")
+                       "filter pattern (end to end); values of kinds outside the table (error object, builtin, closure, function, "
+                       "file handle) in every position; every && / || expression over 17 atoms printed at top level and "
+                       "inside a filter action of the same run; distinct = distinct (position, value tags)")
     rep.cov["exhaustive"] = True
     for it in items[:1] + items[-1:]:
         rep.sample({"src": it["src"], "out": it["out"]})
